@@ -179,3 +179,146 @@ Lemma c20_after_close g evs cl C1 o1 evs2 C2 o2 :
   c_clients (fst (run (init g) evs)) = Some cl -> step (fst (run (init g) evs)) EClose = (C1, o1) -> run C1 evs2 = (C2, o2) ->
   ClosedInv C2 /\ forallb net_quiet o2 = true.
 Proof. intros Ec H1 H2. apply (c20_closed_forever C1 evs2); [eapply c20_pending_end; eauto | exact H2]. Qed.
+
+(* ------------------------------------------------------------------ close() itself connects, writes and schedules nothing *)
+Lemma op_fail_quiet C p r : quiet (snd (op_fail C p r)).
+Proof. unfold op_fail. destruct (nth_error (c_ops C) p); reflexivity. Qed.
+
+Lemma boot_next_closing_quiet C p hosts : c_clients C = None -> quiet (snd (boot_next C p hosts)).
+Proof. intro H. unfold boot_next, closing. rewrite H. apply op_fail_quiet. Qed.
+
+Lemma op_known_closing_quiet C p rid nodes : c_clients C = None -> quiet (snd (op_known C p rid nodes)).
+Proof.
+  intro H. destruct nodes; cbn [op_known]; [apply boot_next_closing_quiet; exact H|]. rewrite H. apply op_fail_quiet.
+Qed.
+
+Lemma op_known_closing_none C p rid nodes : c_clients C = None -> c_clients (fst (op_known C p rid nodes)) = None.
+Proof. intro H. apply (g_op_known Rnone Rnone_refl Rnone_trans Rnone_frame2 Rnone_apply Rnone_reqs_app Rnone_newbc nodes C p rid H). Qed.
+
+(* outputs of an M7 close(): nothing but close requests, cancellations, Deferred failures *)
+Definition close_mo (o : BrokerClient.output) : bool :=
+  match o with BrokerClient.OConnect _ | BrokerClient.OWrite _ _ | BrokerClient.OSched _ => false | _ => true end.
+
+Lemma close_outputs s s' mo : CInv s -> BrokerClient.step s BrokerClient.EClose = (s', mo) -> forallb close_mo mo = true.
+Proof.
+  intros I H. apply forallb_forall. intros o Ho.
+  assert (writes mo = [] /\ connects mo = [] /\ scheds mo = []) as (W & Cn & Sc).
+  { destruct (BrokerClient.s_down s) eqn:D.
+    - destruct (close_step _ _ _ I D H) as (_ & _ & _ & _ & W & Cn & Sc & _). auto.
+    - assert (closed s) as Cl by (unfold closed; congruence). destruct (closed_step _ _ _ _ I Cl H) as (_ & W & Cn & Sc & _). auto.
+    - assert (closed s) as Cl by (unfold closed; congruence). destruct (closed_step _ _ _ _ I Cl H) as (_ & W & Cn & Sc & _). auto. }
+  destruct o; try reflexivity; exfalso.
+  - assert (In addr (connects mo)) as X by (unfold connects; apply in_flat_map; exists (BrokerClient.OConnect addr); split; [exact Ho | left; reflexivity]).
+    rewrite Cn in X. exact X.
+  - assert (In (h, rid) (writes mo)) as X by (unfold writes; apply in_flat_map; exists (BrokerClient.OWrite h rid); split; [exact Ho | left; reflexivity]).
+    rewrite W in X. exact X.
+  - assert (In k (scheds mo)) as X by (unfold scheds; apply in_flat_map; exists (BrokerClient.OSched k); split; [exact Ho | left; reflexivity]).
+    rewrite Sc in X. exact X.
+Qed.
+
+Lemma tr_out_close_quiet C i o : close_mo o = true -> quiet (snd (tr_out C i o)).
+Proof.
+  destruct o; try discriminate; intros _; cbn [tr_out snd]; try reflexivity.
+  - destruct (nth_error (c_bcs C) i) as [b|]; [|reflexivity]. destruct (b_timer b); reflexivity.
+  - unfold dl_refresh. destruct (c_dl C) as [l|]; [|reflexivity]. destruct (filter (bc_pending C) l); [|reflexivity].
+    destruct (c_wait _); reflexivity.
+Qed.
+
+Lemma on_def0_closing C i h oc : c_clients C = None ->
+  c_clients (fst (on_def succ0 C i h oc)) = None /\ quiet (snd (on_def succ0 C i h oc)).
+Proof.
+  intro H. unfold on_def. destruct (nth_error (c_bcs C) i) as [b|]; [|split; [exact H | reflexivity]].
+  destruct (nth_error (b_reqs b) h) as [q|]; [|split; [exact H | reflexivity]].
+  set (X := match q_timer q with
+            | Some t => (upd_creq C i h (fun q0 => mkCreq (q_owner q0) None (q_to q0)), [OCancelTimer t])
+            | None => (C, []) end).
+  assert (c_clients (fst X) = None /\ quiet (snd X)) as [H1 Q1] by (unfold X; destruct (q_timer q); split; auto; reflexivity).
+  destruct X as [C1 o1]. cbn [fst snd] in H1, Q1.
+  destruct (q_owner q) as [d|p]; [split; [exact H1 | apply quiet_app; [exact Q1 | reflexivity]]|].
+  destruct (nth_error (c_ops C1) p) as [[k al rid ph]|]; [|split; [exact H1 | apply quiet_app; [exact Q1 | reflexivity]]].
+  destruct ph as [rest i' h'| | |]; try (split; [exact H1 | apply quiet_app; [exact Q1 | reflexivity]]).
+  destruct (Nat.eqb i i' && Nat.eqb h h'); [|split; [exact H1 | apply quiet_app; [exact Q1 | reflexivity]]].
+  destruct (if q_to q then RTimedOut else res_of oc);
+    try (pose proof (op_known_closing_none C1 p rid rest H1) as N; pose proof (op_known_closing_quiet C1 p rid rest H1) as Q;
+         destruct (op_known C1 p rid rest); cbn [fst snd] in *; split; [exact N | apply quiet_app; assumption]).
+  - cbn [succ0 fst snd]. split; [exact H1 | apply quiet_app; [exact Q1 | reflexivity]].
+  - pose proof (op_fail_quiet C1 p RCancelled) as Q. unfold op_fail in *. destruct (nth_error (c_ops C1) p); cbn [fst snd] in *;
+      (split; [exact H1 | apply quiet_app; assumption]).
+Qed.
+
+Lemma proc0_closing : forall os C i, c_clients C = None -> forallb close_mo os = true ->
+  c_clients (fst (proc succ0 C i os)) = None /\ quiet (snd (proc succ0 C i os)).
+Proof.
+  induction os as [|o os IH]; intros C i H Hos; cbn [proc]; [split; [exact H | reflexivity]|].
+  cbn [forallb] in Hos. apply andb_prop in Hos. destruct Hos as [Ho Hos].
+  assert (c_clients (fst (match o with BrokerClient.ODef h oc => on_def succ0 C i h oc | _ => tr_out C i o end)) = None
+          /\ quiet (snd (match o with BrokerClient.ODef h oc => on_def succ0 C i h oc | _ => tr_out C i o end))) as [H1 Q1].
+  { assert (forall o0, c_clients (fst (tr_out C i o0)) = None) as N0
+      by (intro o0; pose proof (tr_out_rest C i o0) as (_ & X & _); rewrite X; exact H).
+    destruct o; try (split; [apply N0 | apply tr_out_close_quiet; exact Ho]).
+    apply on_def0_closing. exact H. }
+  destruct (match o with BrokerClient.ODef h oc => on_def succ0 C i h oc | _ => tr_out C i o end) as [C1 o1]. cbn [fst snd] in H1, Q1.
+  destruct (IH C1 i H1 Hos) as [H2 Q2]. destruct (proc succ0 C1 i os). cbn [fst snd] in *. split; [exact H2 | apply quiet_app; assumption].
+Qed.
+
+Lemma close_each_closing : forall l pend C, TInvC pend C -> c_clients C = None ->
+  c_clients (fst (close_each C l)) = None /\ quiet (snd (close_each C l)).
+Proof.
+  induction l as [|i l IH]; intros pend C T H; cbn [close_each]; [split; [exact H | reflexivity]|].
+  pose proof (bc_event_wf succ0 succ0_wf pend C i BrokerClient.EClose eq_refl T) as T1.
+  assert (c_clients (fst (bc_event succ0 C i BrokerClient.EClose)) = None /\ quiet (snd (bc_event succ0 C i BrokerClient.EClose))) as [H1 Q1].
+  { unfold bc_event, apply_bc. destruct (nth_error (c_bcs C) i) as [b|] eqn:Eb; [|cbn [proc fst snd]; split; [exact H | reflexivity]].
+    destruct (BrokerClient.step (b_st b) BrokerClient.EClose) as [s' mo] eqn:Es.
+    destruct (TInvC_bc _ _ _ _ T Eb) as (I & _).
+    apply proc0_closing; [exact H | exact (close_outputs _ _ _ I Es)]. }
+  destruct (bc_event succ0 C i BrokerClient.EClose) as [C1 o1]. cbn [fst snd] in *.
+  destruct (IH pend C1 T1 H1) as [H2 Q2]. destruct (close_each C1 l). cbn [fst snd] in *. split; [exact H2 | apply quiet_app; assumption].
+Qed.
+
+Lemma cancel_boots_closing_quiet : forall n C p, c_clients C = None -> quiet (snd (cancel_boots C n p)).
+Proof.
+  induction n as [|n IH]; intros C p H; cbn [cancel_boots]; [reflexivity|].
+  set (X := match nth_error (c_ops C) p with
+            | Some (mkOp _ _ _ (PBootConn a rest)) => let (C', o') := boot_next (set_boot C a KDead) p rest in (C', OBootCancel a :: o')
+            | Some (mkOp _ _ _ (PBootReq a t rest)) => let (C', o') := boot_next C p rest in (C', OCancelTimer t :: OBootLose a :: o')
+            | _ => (C, []) end).
+  assert (c_clients (fst X) = None /\ quiet (snd X)) as [H1 Q1].
+  { unfold X. destruct (nth_error (c_ops C) p) as [[k al rid ph]|]; [|split; [exact H | reflexivity]].
+    destruct ph; try (split; [exact H | reflexivity]).
+    - pose proof (boot_next_closing_quiet (set_boot C a KDead) p rest H) as Q.
+      pose proof (g_boot_next Rnone Rnone_refl Rnone_trans Rnone_frame2 (set_boot C a KDead) p rest H) as N.
+      destruct (boot_next (set_boot C a KDead) p rest). cbn [fst snd] in *. split; [exact N | exact Q].
+    - pose proof (boot_next_closing_quiet C p rest H) as Q.
+      pose proof (g_boot_next Rnone Rnone_refl Rnone_trans Rnone_frame2 C p rest H) as N.
+      destruct (boot_next C p rest). cbn [fst snd] in *. split; [exact N | exact Q]. }
+  destruct X as [C1 o1]. cbn [fst snd] in *. pose proof (IH C1 (S p) H1) as Q2. destruct (cancel_boots C1 n (S p)). cbn [snd] in *.
+  apply quiet_app; assumption.
+Qed.
+
+Theorem close_step_quiet C cl C' o : TInvC [] C -> c_clients C = Some cl -> step C EClose = (C', o) -> quiet o.
+Proof.
+  intros T Ec H. cbn [step] in H. rewrite Ec in H. unfold close_brokerclients in H.
+  assert (TInvC [] (with_clients C None)) as T0 by (eapply TInvC_same_core; [exact T | score]).
+  destruct (close_each_closing (map snd cl) [] (with_clients C None) T0 eq_refl) as [H1 Q1].
+  destruct (close_each (with_clients C None) (map snd cl)) as [C1 o1]. cbn [fst snd] in H1, Q1.
+  set (C1' := with_dl C1 _) in *.
+  assert (quiet (snd (dl_refresh C1')) /\ c_clients (fst (dl_refresh C1')) = None) as [Q2 H2].
+  { unfold dl_refresh. destruct (c_dl C1') as [l|]; [|split; [reflexivity | exact H1]].
+    destruct (filter (bc_pending C1') l); [|split; [reflexivity | exact H1]]. destruct (c_wait _); split; try reflexivity; exact H1. }
+  destruct (dl_refresh C1') as [C2 o2]. cbn [fst snd] in *.
+  pose proof (cancel_boots_closing_quiet (length (c_ops C2)) C2 0 H2) as Q3.
+  destruct (cancel_boots C2 (length (c_ops C2)) 0) as [C3 o3]. cbn [snd] in Q3.
+  destruct (c_dl (with_topics C3 [])); injection H as _ <-.
+  - apply quiet_app; [apply quiet_app; assumption | exact Q3].
+  - apply quiet_app; [apply quiet_app; assumption|]. apply quiet_app; [exact Q3 | reflexivity].
+Qed.
+
+(* close(), then anything: from the moment close() is called no connection is attempted, nothing is written, no timer is armed *)
+Lemma c20_no_connect_no_write g evs cl C1 o1 evs2 C2 o2 :
+  c_clients (fst (run (init g) evs)) = Some cl -> step (fst (run (init g) evs)) EClose = (C1, o1) -> run C1 evs2 = (C2, o2) ->
+  forallb net_quiet (o1 ++ o2) = true /\ ClosedInv C2.
+Proof.
+  intros Ec H1 H2. destruct (c20_after_close g evs cl C1 o1 evs2 C2 o2 Ec H1 H2) as [K Q]. split; [|exact K].
+  rewrite forallb_app. rewrite Q. rewrite Bool.andb_true_r.
+  exact (close_step_quiet _ cl C1 o1 (reachable_wf g evs) Ec H1).
+Qed.
